@@ -200,8 +200,13 @@ def run(ctx):
                     k = (len(ys) // 2) * 2
                     term.tsukamoto(np.array(ys[:k]).reshape(2, -1))
                     term.tsukamoto(np.float64(ys[-1]))
+                    # batches of one, columns, rows and other memory layouts: one result per element, in the same shape
+                    A = np.array(ys[:k])
+                    for what, B in {"array of one": A[:1], "1x1": A[:1].reshape(1, 1), "column": A.reshape(-1, 1), "row": A.reshape(1, -1), "transposed": A.reshape(2, -1).T, "strided": A[::2], "reversed": A[::-1], "list": list(ys[:3])}.items():
+                        term.tsukamoto(B)
+                        ctx.hit("y form:" + what)
             except Exception:
-                pass  # judged by the monitor
+                ctx.hit("event:tsukamoto raised in the workload (judged by the monitor)")
             if i < 12 and i % 2 == 0:
                 ctx.sample("term", {"spec": spec, "y": ys[:6], "tsukamoto": term.tsukamoto(np.array(ys[:6]))})
         # the same term and array object used again after refilling the array / changing the parameters (stale state, aliasing)
@@ -250,7 +255,7 @@ def run(ctx):
         probe.report(ctx)
         reach.report(ctx)
     for k in R.MONOTONIC:
-        ctx.require(f"hook:{k}.tsukamoto", f"law:monotone:{k}")
+        ctx.require(f"hook:{k}.tsukamoto", f"law:monotone:{k}", "y form:column", "y form:array of one")
     for k in ("SShape", "ZShape"):
         d = "incr" if k == "SShape" else "decr"
         ctx.require(f"piece:{k}:y<h/2:{d}", f"piece:{k}:y==h/2:{d}", f"piece:{k}:y>h/2:{d}")
